@@ -1,5 +1,5 @@
 #!/usr/bin/env python3
-"""Development-time helper: markdown table of the round-4/5 seeds for DESIGN.md section 12 from seeded/*/meta.json and
+"""Development-time helper: markdown table of the seeds of the given rounds for DESIGN.md section 12 from seeded/*/meta.json and
 seeded/RESULTS.json.    tools/seed_table.py d e"""
 import json
 import os
@@ -14,7 +14,10 @@ FIRST = {  # what the checks reported when the seed was first run, before any st
     'C13e': 'tie broke, no input', 'C14e': 'caught', 'C15e': 'missed', 'C16e': 'missed', 'C17e': 'caught', 'C18e': 'caught', 'C19e': 'missed',
     'C20e': 'caught',
     'C01f': 'missed', 'C02f': 'caught', 'C03f': 'caught', 'C09f': 'caught', 'C10f': 'caught', 'C13f': 'caught', 'C15f': 'caught',
-    'C16f': 'missed', 'C17f': 'caught', 'C18f': 'caught'}
+    'C16f': 'missed', 'C17f': 'caught', 'C18f': 'caught',
+    'C01g': 'missed', 'C03g': 'missed', 'C04g': 'caught', 'C05g': 'tie broke, no input', 'C06g': 'caught', 'C07g': 'tie broke, no input',
+    'C08g': 'caught', 'C09g': 'missed', 'C11g': 'missed', 'C12g': 'missed', 'C13g': 'caught', 'C14g': 'caught', 'C15g': 'caught',
+    'C16g': 'missed', 'C19g': 'missed', 'C20g': 'caught'}
 SHORT = {
     'C02d': '2021 Schedule A line 8e drops line 8d', 'C04d': 'unset enumeration lines dropped from the returned solution',
     'C06d': 'waiters of a REFUSED input are released (meet moved out of the if)', 'C08d': '2021 EIC one-child limits transposed between MFJ and the others',
@@ -39,7 +42,23 @@ SHORT = {
     'C10f': '2023 Credit Limit Worksheet A reads Schedule 3 lines through i[...] (RecursionError)',
     'C13f': 'the needed_by list shown at the prompt accumulates over the questions of a pass',
     'C15f': '2022 NC D-400 line 26a (tax due) computed as payments minus tax', 'C16f': '2021 Schedule A line 5a adds 1099-G box 4 (FEDERAL withholding) to the state taxes',
-    'C17f': 'duplicate line name in the 2023 NC D-400', 'C18f': '2023 Schedule 8812: the two widgets of line 16b transposed'}
+    'C17f': 'duplicate line name in the 2023 NC D-400', 'C18f': '2023 Schedule 8812: the two widgets of line 16b transposed',
+    'C01g': 'UnmetDependency / MissingInput become KeyErrors: `v.get(k)` and `k in v` swallow the demand',
+    'C03g': 'ValueStore.to_config strips the text it writes: returned text lines differ from what their definitions yield',
+    'C04g': 'MissingInputSpecification retried only once: a line reading inputs of two unseen forms is silently dropped',
+    'C05g': '2023 tax table: last-row memo ignoring the status column (second solve in one process)',
+    'C06g': 'ValueStore treats a stored None (blank enumeration line) as unmet: its waiters wait for ever',
+    'C07g': '2023 tax table: last-row memo keyed by the amount alone (next call with another status)',
+    'C08g': '2023 capital-gain worksheet: MFS 15%/20% breakpoint derived as half the joint one (276,925, not 276,900)',
+    'C09g': '2023 Form 1116 election limit: QualifyingSurvivingSpouse moved to the 600 row',
+    'C11g': 'InputStore memoises parsed values: stale after del / config change / update_input_spec',
+    'C12g': 'lines of input-only forms stored straight from the input: money unrounded (sub-cent inputs)',
+    'C13g': 'InvalidInput subclasses MissingInput: an unparsable supplied value is prompted for and overwritten',
+    'C14g': 'fill-pdfs gets --year with a default: the year recorded in the solution is never used',
+    'C15g': '2023 Schedule A line 4: the 7.5% floor replaced by "blank when no expenses"',
+    'C16g': '2022 capital-gain worksheet line 10: min(line 1, line 4) became line 4 (tax falls as wages rise)',
+    'C19g': 'TextPDFField length guard measures value.lstrip("-")',
+    'C20g': 'answers of a prompt round committed to the store only at the end of the round (lost on EOF)'}
 
 
 def main(rounds):
